@@ -278,3 +278,28 @@ func Observe(label string, v uint64) {
 	Trace = append(Trace, fmt.Sprintf("%s=%d", label, v))
 	mu.Unlock()
 }
+
+var allocLimit int64
+var allocBase uint64
+
+// AllocLimit declares that the code that follows must not allocate a single
+// object larger than n bytes (engine), natively: must not allocate more than
+// n bytes in total until CheckAlloc is called.
+func AllocLimit(n int64) {
+	var ms runtime.MemStats
+	runtime.ReadMemStats(&ms)
+	allocLimit, allocBase = n, ms.TotalAlloc
+}
+
+// CheckAlloc records the failure "alloc-bound" natively when more than the
+// declared limit (plus a fixed slack for bookkeeping) was allocated.
+func CheckAlloc() {
+	if allocLimit <= 0 {
+		return
+	}
+	var ms runtime.MemStats
+	runtime.ReadMemStats(&ms)
+	if ms.TotalAlloc-allocBase > uint64(allocLimit)+(1<<20) {
+		Assert(false, "alloc-bound")
+	}
+}
